@@ -3,16 +3,20 @@ import numpy as np
 from hypothesis import strategies as st
 
 import pytenet as ptn
-from core import Part, require
+from core import Part, require, known_listed, Violation, _classify
+from lanczos_monitor import LanczosMonitor
 from gen_dyn import ham_and_state, build_ham, dense_ham, dense_state, sector_mask, gauge_edit
 from gen_qn import build_mps
 from oracle_dense import mps_mask_violation
 
 ID = 'C08'
+KEY_F5 = 'tdvp-local-exponential-past-undetected-lanczos-breakdown'
+
 RULE = ('cases = (Hermitian MPO: ising / xxz spin-1/2 / xxz spin-1 / bose-hubbard d 2..4 / fermi-hubbard with generic parameters or random M + M^dagger with charges; '
         'L 1..5 (two-site: >= 2); random state in a sector of the model with arbitrary bond profile; integrator single-site | two-site (tol_split = 0); dt = i tau with tau in +-[1e-3, 1]; '
         '1..4 steps; 1..8 local Krylov iterations; optionally a second call on the evolved state). Non-trivial: L >= 2, a bond >= 2, ||H|| |tau| steps > 1e-2 and energy variance of the start state > 1e-6.')
-ASSUME = ['energy and norm are exact invariants of every local Krylov sub-step (unitary in its Krylov space, Rayleigh quotient conserved); judged to 1e-10 max(1, ||H||)',
+ASSUME = ['known finding F5 at its TDVP call site (witness uses the default numiter_lanczos = 25 on two-site problems of dimension 16): a failure is attributed to it - excluded and counted - only when a local Lanczos iteration of the same case returned more vectors than its Krylov space has dimensions (run-time monitor as in C09 / C10); runs without that signature are judged in full',
+          'energy and norm are exact invariants of every local Krylov sub-step (unitary in its Krylov space, Rayleigh quotient conserved); judged to 1e-10 max(1, ||H||)',
           'the exactly-zero state is outside the domain', 'dense reach d^L <= 256']
 
 
@@ -29,6 +33,24 @@ def run_integrator(kind, H, psi, dt, steps, iters):
 
 
 def check_tdvp(case, rec):
+    """Known finding F5 at its TDVP call site: every clause is judged on every run; a failure (clause or exception) is attributed to the
+    finding - excluded and counted - only if, up to that point of the same case, a local Lanczos iteration returned more vectors than its
+    Krylov space has dimensions (run-time monitor)."""
+    with LanczosMonitor() as mon:
+        try:
+            _check_tdvp(case, rec)
+        except Exception as e:
+            if mon.past_breakdown and known_listed(ID, KEY_F5) and (isinstance(e, Violation) or _classify(e, e.__traceback__) == 'violation'):
+                rec.label('lanczos_past_breakdown', 'failure_attributed_to_known_finding')
+                rec.excluded_known += 1
+                rec.nontrivial = False
+                return
+            raise
+        if mon.past_breakdown:
+            rec.label('lanczos_past_breakdown')
+
+
+def _check_tdvp(case, rec):
     H = build_ham(case['ham'])
     psi = build_mps(case['psi'])
     L = len(psi.A); d = len(psi.qd)
